@@ -44,8 +44,11 @@ FLAGS_CHEAP = ["VoteIgnoreVoted", "NoPersistVote", "VoteIgnoreLog", "QuorumMinus
 FLAGS_CONF = ["ConfNoPending", "AddedVoterCaughtUp"]
 # CommitAnyTerm is regenerated only with C15_REGEN_ALL=1 (1.7 M states, 2-10 min depending on load); the stored
 # schedule in spec/EtcdRaft_attacks.json is always replayed
-FLAGS_ALL = FLAGS_CHEAP + FLAGS_CONF + ["HeartbeatCommit", "AppendTruncates"] + (["CommitAnyTerm"] if os.environ.get("C15_REGEN_ALL") else [])
-ATTACK_OPT = {"CommitAnyTerm": {"maxents": 1}, "PreVoteResp": {"prevote": True},
+# KeepMatch (five nodes, 31 steps) is a SCRIPTED search: MC_Raft3.tla KeepMatchScript gives the outline, TLC checks that it is a
+# behaviour of the weakened specification ending in a safety violation and fills in every message (24 M states, 7 min with 8
+# workers because of the message-loss subsets): regenerated only with C15_REGEN_ALL=1, the stored schedule is always replayed
+FLAGS_ALL = FLAGS_CHEAP + FLAGS_CONF + ["HeartbeatCommit", "AppendTruncates"] + (["CommitAnyTerm", "KeepMatch"] if os.environ.get("C15_REGEN_ALL") else [])
+ATTACK_OPT = {"CommitAnyTerm": {"maxents": 1}, "PreVoteResp": {"prevote": True}, "KeepMatch": {"nodes": 5, "voters": [1, 2, 3, 4, 5]},
               "ConfNoPending": {"voters": [1, 2, 3]}, "AddedVoterCaughtUp": {"voters": [1, 2]}}
 # -simulate instances with ConfChange = TRUE: (cfg, maxents, prevote, genesis voters, depth = SimDepth of the cfg)
 SIM_CONF = [("MC_Raft3_sim_conf.cfg", 0, False, [1, 2], 40), ("MC_Raft3_sim_conf3.cfg", 1, False, [1, 2, 3], 45)]
@@ -453,8 +456,8 @@ def main():
     atk_jobs = {}
     live_flags = FLAGS_CHEAP if QUICK else FLAGS_ALL
     for fl in live_flags:
-        heavy = fl in ("AppendTruncates", "HeartbeatCommit", "CommitAnyTerm", "ConfNoPending", "AddedVoterCaughtUp")
-        atk_jobs[fl] = pool.submit(tlc_attack, fl, 4 if heavy else 1, 1000 if heavy else 300)
+        heavy = fl in ("AppendTruncates", "HeartbeatCommit", "CommitAnyTerm", "ConfNoPending", "AddedVoterCaughtUp", "KeepMatch")
+        atk_jobs[fl] = pool.submit(tlc_attack, fl, 8 if fl == "KeepMatch" else 4 if heavy else 1, 2400 if fl == "KeepMatch" else 1000 if heavy else 300)
 
     # ---- 3. random runs on the real code
     nfiles = 12 if QUICK else 16
